@@ -196,7 +196,10 @@ func c11Worker(args []string) {
 		// W2 / W3: other goroutines prepare and run their own evaluators over
 		// many distinct regexps at the same time
 		stopOwn := make(chan struct{})
-		var ownRuns int64
+		// per-goroutine counters, summed after the goroutines have ended: an atomic counter
+		// shared by the workers would order their runs for the race detector and so hide
+		// races between them
+		ownRunsBy := make([]int64, G)
 		var wgOwn sync.WaitGroup
 		for g := 0; g < G; g++ {
 			wgOwn.Add(1)
@@ -218,8 +221,9 @@ func c11Worker(args []string) {
 						bad := fmt.Sprintf("(w%d_%d_%d[", g, k, rr.Intn(1000000))
 						script = fmt.Sprintf("c = c + 1; if (match(Word, \"%s\") || replace(Word, \"%s\", \"x\") == true) { return 0 - c; } return c;", bad, bad)
 					}
-					if k%5 == 3 {
+					if (g%2 == 0 && k%5 == 0) || (g%2 == 1 && k%5 == 3) {
 						// time built-ins against Go's own calendar arithmetic in this round's zone
+						// (half of the goroutines start each round with them)
 						ts := rr.Int63n(4102444800)
 						tm := time.Unix(ts, 0).In(loc)
 						script = fmt.Sprintf("c = c + 1; if (hour(%d) == %d && minute(%d) == %d && seconds(%d) == %d && day(%d) == %d && month(%d) == %d && year(%d) == %d && weekday(%d) == \"%s\" && now() > 0) { return c; } return 0 - c;",
@@ -233,7 +237,7 @@ func c11Worker(args []string) {
 					}
 					for j := 1; j <= 3; j++ {
 						out, err := e.Execute(map[string]interface{}{"Word": word})
-						atomic.AddInt64(&ownRuns, 1)
+						ownRunsBy[g]++
 						if err != nil || out.Inspect() != fmt.Sprint(j) {
 							ownMismatch[g] = append(ownMismatch[g], fmt.Sprintf("own evaluator %s run %d gave %v err=%v", script, j, out.Inspect(), err))
 						}
@@ -263,7 +267,9 @@ func c11Worker(args []string) {
 			break
 		}
 		res.SharedRuns += N
-		res.OwnRuns += int(ownRuns)
+		for _, n := range ownRunsBy {
+			res.OwnRuns += int(n)
+		}
 		for g := range ownMismatch {
 			res.OwnMismatch = append(res.OwnMismatch, ownMismatch[g]...)
 		}
